@@ -47,6 +47,8 @@ type forcedUplink struct {
 	d         *simDev
 	confirmed bool
 	submit    bool // not an uplink: an unconfirmed message of ordinary size is queued for d
+	gap       int  // the uplink skips this many counters (lost frames)
+	ack       int  // 0: random ACK flag, 1: set, 2: clear
 }
 
 type seqHistory struct {
@@ -299,6 +301,7 @@ func runPipeSeq(c *ctx) error {
 				confirmed := r.Intn(3) == 0
 				if forcedUp != nil {
 					confirmed = forcedUp.confirmed
+					fc += forcedUp.gap
 					c.res.Count("event=uplink-after-over-long-message")
 				}
 				mt := 2
@@ -306,6 +309,9 @@ func runPipeSeq(c *ctx) error {
 					mt = 4
 				}
 				ackFlag := r.Intn(3) == 0
+				if forcedUp != nil && forcedUp.ack != 0 {
+					ackFlag = forcedUp.ack == 1
+				}
 				n := []int{0, 1, 5, 16, 17, 40, r.Intn(200)}[r.Intn(7)]
 				port := 1 + r.Intn(223)
 				ports := fmt.Sprint(port)
@@ -494,11 +500,16 @@ func runPipeSeq(c *ctx) error {
 				if err == nil {
 					h.lastCreated[d.eui], h.lastCreatedAny = m.created, m.created
 					if overLong && n > 60 && d.joined && len(forcedUps) == 0 {
-						forcedUps = append(forcedUps, forcedUplink{d, true, false}, forcedUplink{d, false, false}, forcedUplink{d, false, false})
+						forcedUps = append(forcedUps, forcedUplink{d: d, confirmed: true}, forcedUplink{d: d}, forcedUplink{d: d})
 					} else if !overLong && forcedUp == nil && m.ack && d.joined && len(forcedUps) == 0 && r.Intn(3) == 0 {
 						// a confirmed message of ordinary size, an unconfirmed one right behind it, and two uplinks in a
 						// row: each message leaves with its own type
-						forcedUps = append(forcedUps, forcedUplink{d, false, true}, forcedUplink{d, false, false}, forcedUplink{d, false, false})
+						forcedUps = append(forcedUps, forcedUplink{d: d, submit: true}, forcedUplink{d: d}, forcedUplink{d: d})
+					} else if !overLong && forcedUp == nil && m.ack && d.joined && len(forcedUps) == 0 && r.Intn(2) == 0 {
+						// a confirmed message is transmitted, the next uplink is lost, the one after it carries an ACK
+						// (which cannot be for this transmission: the server matches by counter), then uplinks
+						// without ACK: the message is due again
+						forcedUps = append(forcedUps, forcedUplink{d: d, ack: 2}, forcedUplink{d: d, gap: 1, ack: 1}, forcedUplink{d: d, ack: 2}, forcedUplink{d: d, ack: 2})
 					}
 					if m.created != h.ts {
 						c.res.Count("submit=shared-creation-stamp")
